@@ -130,7 +130,7 @@ func (fr *frame) call(v ssa.Value, c *ssa.CallCommon, st *State, g string, isDef
 		argT = append(argT, a.Type())
 	}
 	// ---- continuation parameter
-	if fr.kparam != nil && c.Value == fr.kparam {
+	if fr.isContValue(c.Value) {
 		fr.contPoint(st, g, pos, "k", args)
 		res := fr.freshResults(v, sig, st, g, hint, false)
 		fr.setResult(v, res)
@@ -629,14 +629,15 @@ func (fr *frame) applyContract(d *Decl, callee *ssa.Function, sig *types.Signatu
 		}
 	}
 	// continuation passing
-	if d.Has("calls") && fr.kparam != nil {
+	if d.Has("calls") {
 		for _, a := range argVals {
-			if a == fr.kparam {
+			if fr.isContValue(a) {
 				fr.contPoint(st, g, pos, key, nil)
 			}
 		}
 	}
 	// the callee may allocate: values it leaves in memory or returns may be newer than anything allocated so far
+	hwBefore := st.hw
 	if d.Has("allocates") || !d.Has("pure") {
 		nhw := vc.freshConst("hw", "Int")
 		vc.assume("(>= " + nhw + " " + st.hw + ")")
@@ -696,6 +697,43 @@ func (fr *frame) applyContract(d *Decl, callee *ssa.Function, sig *types.Signatu
 			continue
 		}
 		vc.assumeG(g, f)
+	}
+	// objects of a `defined-by` type that the callee allocated and published have their view defined in the state it
+	// returns in (same justification as the entry axiom: defined once at publication, immutable afterwards)
+	if st.hw != hwBefore && vc.mode == modeInt {
+		for tname, def := range vc.P.TypeDef {
+			f := strings.Fields(def)
+			nt := vc.P.namedType(tname)
+			if len(f) < 4 || nt == nil || !vc.useAxiom["view:"+tname] {
+				continue // this function does not speak about the view of T objects
+			}
+			ustr := f[0] + "(n$, q$)"
+			if len(f) == 6 && f[4] == "inv" {
+				ustr += " && " + f[5] + "(n$, q$)"
+			}
+			e, err := ParseExpr(ustr)
+			e2, err2 := ParseExpr(f[2] + "(n$, q$)")
+			e3, err3 := ParseExpr(f[3] + "(n$)")
+			if err != nil || err2 != nil || err3 != nil {
+				continue
+			}
+			vc.n++
+			nb, qb := fmt.Sprintf("|n?pub%d|", vc.n), fmt.Sprintf("|q?pub%d|", vc.n)
+			penv := vc.newSpecEnv(fr.fn, st, st)
+			penv.vars["n$"] = sval{t: nb, typ: types.NewPointer(nt)}
+			penv.vars["q$"] = sval{t: qb, math: true}
+			body, ok1 := penv.tryBool(e)
+			p1, p2 := penv.tr(e2).t, penv.tr(e3).t
+			if !ok1 {
+				continue
+			}
+			// instantiated for every marked object and every key that occurs in some view term (of any object)
+			mb := fmt.Sprintf("|m?pub%d|", vc.n)
+			p1 = strings.Replace(p1, nb, mb, 1)
+			vc.assumeG(g, fmt.Sprintf("(forall ((%s Int) (%s Int) (%s Int)) (! (=> (and (> (base %s) %s) (<= (base %s) %s)) %s) :pattern (%s %s)))",
+				nb, mb, qb, nb, hwBefore, nb, st.hw, body, p1, p2))
+			vc.note("DEFINITION: " + tname + " objects allocated and published by a callee satisfy " + f[0] + " in the state the callee returns in")
+		}
 	}
 	// `defines e`: the implementation *is* the abstract (interface-level) function at its receiver type; assumed at
 	// call sites, not an obligation of the body (listed as an assumption)
@@ -1946,4 +1984,54 @@ func hasAnyProp(a, b []string) bool {
 		}
 	}
 	return false
+}
+
+// isContValue: the called function value is the continuation of the function under contract: its continuation
+// parameter itself, or a load from the cell that holds it (a parameter captured by a closure lives in a cell; a
+// closure sees the enclosing function's continuation through its free variable), provided the cell is never
+// reassigned
+func (fr *frame) isContValue(v ssa.Value) bool {
+	if fr.kparam != nil && v == ssa.Value(fr.kparam) {
+		return true
+	}
+	u, ok := v.(*ssa.UnOp)
+	if !ok || u.Op != token.MUL {
+		return false
+	}
+	if fr.kcell != nil && u.X == fr.kcell {
+		return cellNeverReassigned(fr.fn, fr.kcell.Name())
+	}
+	if a, ok := u.X.(*ssa.Alloc); ok && fr.kparam != nil && a.Referrers() != nil {
+		stores := 0
+		fromParam := false
+		for _, r := range *a.Referrers() {
+			if st, ok := r.(*ssa.Store); ok && st.Addr == ssa.Value(a) {
+				stores++
+				if st.Val == ssa.Value(fr.kparam) {
+					fromParam = true
+				}
+			}
+		}
+		return stores == 1 && fromParam && cellNeverReassigned(fr.fn, fr.kparam.Name())
+	}
+	return false
+}
+
+// cellNeverReassigned: no closure nested in fn (at any depth) stores into its free variable of that name
+func cellNeverReassigned(fn *ssa.Function, name string) bool {
+	for _, an := range fn.AnonFuncs {
+		for _, b := range an.Blocks {
+			for _, in := range b.Instrs {
+				if st, ok := in.(*ssa.Store); ok {
+					if fv, ok := st.Addr.(*ssa.FreeVar); ok && fv.Name() == name {
+						return false
+					}
+				}
+			}
+		}
+		if !cellNeverReassigned(an, name) {
+			return false
+		}
+	}
+	return true
 }
